@@ -86,9 +86,9 @@ def ob_swap(W, backend, fam, L, starts, order, N):
     W.goal("swap/M2", W.eq(a[4], b[4]))
 
 
-def ob_auto_in_pair(W, backend, fam, L, starts, order, N):
+def ob_auto_in_pair(W, backend, fam, L, starts, order, N, chunk=None):
     x, y, w, om = _data(W, N, L)
-    c = K.run(W, backend, fam, "csd", x, y, starts, L, w, om, order)
+    c = K.run(W, backend, fam, "csd", x, y, starts, L, w, om, order, chunk=chunk)    # chunk: the NumPy fallbacks' chunk loop crossed at small K
     ax = K.run(W, backend, fam, "auto", x, x, starts, L, w, om, order)
     ay = K.run(W, backend, fam, "auto", y, y, starts, L, w, om, order)
     W.goal("pair/Gxx", W.eq(c[0], ax[0]))
@@ -223,6 +223,10 @@ def obligations(tier):
                 if not (heavy and tier == "quick"):
                     obs.append({"name": "swap/" + tag, "fn": "ob_swap", "params": p, "weight": L * len(st)})
                     obs.append({"name": "pair/" + tag, "fn": "ob_auto_in_pair", "params": p, "weight": L * len(st)})
+                if backend == "numpy" and L == 2 and len(st) == 1:
+                    # three segments in chunks of two (a partial last chunk): the densities inside a pair are still the single-channel ones
+                    obs.append({"name": "pair-chunked/%s/%s/o%d/L2/K3" % (backend, fam, order), "fn": "ob_auto_in_pair",
+                                "params": dict(backend=backend, fam=fam, L=2, starts=[0, 2, 1], order=order, N=4, chunk=2), "weight": 8})
                 if len(st) == 1:
                     obs.append({"name": "coh1-K1/" + tag, "fn": "ob_coh_one", "params": dict(p, case="K1"), "weight": L})
                 if not heavy or tier == "thorough":
